@@ -1,5 +1,6 @@
 import Driver.Dap4
 import Driver.Dmr
+import Driver.HandlerSteps
 import Driver.IterData
 import Driver.Seq
 import Driver.Slice
